@@ -72,16 +72,20 @@ def run(ctx):
             continue
         c, _ = lock_typestate(ctx, "R9.1", S, k, roots=[t["dest"]["l"]], pre=pre)
         n += c
-    # cheat closure: the selflock lives in a captured Option<(.., Lock)>; invariant: not owned at entry and exit
-    for cl in prog.children(S):
-        if cl.kind == "Closure" and not cl.coroutine and BA.of(cl).calls(r"state::Lock::[a-z_]+"):
-            c, _ = lock_typestate(ctx, "R9.1", cl, "captured-selflock", entry={"U"}, single=True, exit_required={"U"}, pre=pre)
-            n += c
-    for key, role in ((r"@bin::log::LogState::catlog", "loglock"), (r"@bin::log::is_locked", "probe"), (r"state::LockManager::detect_broken_locks", "probe")):
+    # closures that use a captured lock (the cheat closure: selflock lives in a captured Option<(.., Lock)>);
+    # invariant: not owned at entry and at every normal exit
+    lock_closures = [b for b in prog.bodies.values() if b.kind == "Closure" and not b.coroutine
+                     and BA.of(b).calls(r"state::Lock::(unlock|try_lock|wait_lock|check)") and b.key.startswith("builder::")]
+    for cl in sorted(lock_closures, key=lambda b: b.key):
+        c, _ = lock_typestate(ctx, "R9.1", cl, "captured-selflock", entry={"U"}, single=True, exit_required={"U"}, pre=pre)
+        n += c
+    table = [(r"@bin::log::LogState::catlog", "loglock", True), (r"@bin::log::is_locked", "probe", True),
+             (r"state::LockManager::detect_broken_locks", "probe", False), (r"state::ProcessState::init", "init-lock", False)]
+    for key, role, single in table:
         b = prog.one(key)
         bba = BA.of(b)
         news = bba.calls(r"state::ProcessState::new_lock|state::Lock::new")
-        if key.endswith("detect_broken_locks"):
+        if not single:
             for k, i in common.ordinal_keys([("Lock::new", i) for i in news]):
                 c, _ = lock_typestate(ctx, "R9.1", b, role + "-" + k, roots=[b.blocks[i]["term"]["dest"]["l"]], pre=pre)
                 n += c
@@ -90,7 +94,7 @@ def run(ctx):
             n += c
     ctx.floor("R9.1", "Lock method call sites with an obligation", n, 12)
     # every body that calls an asserting Lock method was analysed
-    analysed = {S.key, "@bin::log::LogState::catlog", "@bin::log::is_locked", "state::LockManager::detect_broken_locks"} | {c.key for c in prog.children(S)}
+    analysed = {S.key} | {prog.one(k).key for k, _, _ in table} | {c.key for c in lock_closures}
     internal = {k for k in prog.bodies if k.startswith("state::Lock::") or k.startswith("<state::Lock as")}
     for b in anchors.bodies_calling(prog, r"state::Lock::(unlock|try_lock|wait_lock|check)"):
         if b.key in internal:
